@@ -288,8 +288,8 @@ int main(int argc, char **argv) {
     vm_init((size_t)64 << 20);
     build_alphabet();
     vh_infostr("double_alphabet", "%zu", nDA);
-    static double S2[200], S3[64];
-    size_t n2 = subset(S2, vh_thorough ? 150 : 60), n3 = subset(S3, vh_thorough ? 24 : 12);
+    static double S2[260], S3[96];
+    size_t n2 = subset(S2, vh_thorough ? 190 : 110), n3 = subset(S3, vh_thorough ? 30 : 18);
     vh_infostr("pair_alphabet", "%zu", n2);
     vh_infostr("triple_alphabet", "%zu", n3);
 
